@@ -53,7 +53,7 @@ def run(ctx, res):
     OKV, FAILV = mres["mtbl_res_success"], mres["mtbl_res_failure"]
     f = prog.need("mtbl_writer_add", "mtbl/writer.c")
     res.saw(f)
-    ev = APE.run(prog, cg, f, bound=1)
+    ev = APE.run(prog, cg, f, bound=APE.BOUND)
     res.floor("C08.R1", 3)
     res.floor("C08.R2", 1)
     res.floor("C08.R3", 2)
@@ -205,7 +205,7 @@ def run(ctx, res):
                   "flags constant 0%o has O_CREAT and O_EXCL" % v,
                   "open() flags 0%o lack %s: an existing file would be opened and truncated" %
                   (v, "O_EXCL" if not (v & o_excl) else "O_CREAT"), init.loc(n))
-    ev2 = APE.run(prog, cg, init, bound=1, opaque_calls=("open",))
+    ev2 = APE.run(prog, cg, init, bound=APE.BOUND, opaque_calls=("open",))
     seen_fail = False
     for p in ev2.paths:
         oc = p.calls("open")
